@@ -600,6 +600,8 @@ fn enc_seek_total() {
 }
 
 struct OneByteSink(Vec<u8>);
+/// length of the sink at its last flush (the sink sits behind boxed layers)
+static SINK_LEN_AT_FLUSH: std::sync::atomic::AtomicU64 = std::sync::atomic::AtomicU64::new(u64::MAX);
 impl Write for OneByteSink {
     fn write(&mut self, buf: &[u8]) -> std::io::Result<usize> {
         if buf.is_empty() {
@@ -609,6 +611,7 @@ impl Write for OneByteSink {
         Ok(1)
     }
     fn flush(&mut self) -> std::io::Result<()> {
+        SINK_LEN_AT_FLUSH.store(self.0.len() as u64, std::sync::atomic::Ordering::SeqCst);
         Ok(())
     }
 }
@@ -636,6 +639,20 @@ fn enc_writer() {
                 return Some("write() accepted nothing".to_string());
             }
             done += n;
+        }
+        // once flush() returns, every byte accepted so far has reached the destination (with the
+        // tags of the chunks already closed): a cut right here loses nothing
+        SINK_LEN_AT_FLUSH.store(u64::MAX, std::sync::atomic::Ordering::SeqCst);
+        if w.flush().is_err() {
+            return Some("flush failed on a healthy destination".to_string());
+        }
+        let at_flush = SINK_LEN_AT_FLUSH.load(std::sync::atomic::Ordering::SeqCst);
+        let closed = if total == 0 { 0 } else { (total - 1) / ch() };
+        if at_flush == u64::MAX {
+            return Some("flush() of the encryption writer did not reach the destination".to_string());
+        }
+        if at_flush < total + 16 * closed {
+            return Some(format!("{total} plaintext bytes written, flush() returned, the destination holds {at_flush} bytes ({} expected at least): data accepted before the flush would not survive a cut", total + 16 * closed));
         }
         w.finalize().unwrap();
         let out = w.into_raw().0;
